@@ -76,6 +76,11 @@ CHECKS = {
          "DESIGN.md §4 C18",
          "All bodies of up to 2 (quick) / 3 (thorough) instructions from a 14-instruction alphabet in a straight-line, a loop and a subroutine frame, with one assertion of 8 kinds at every gap whose compared value is the reference interpreter's value at the first or second dynamic visit (or that value + 1), plus two-bank isolation programs, are run through the real TestRunner and a stratified subset through `mos test`; verdict, failing location, message and exit status are compared with the reference.",
          "Reference interpreter for the documented binary-mode subset is trusted (checked to be independent of the initial machine state); one assertion per test."),
+ "C10": ("model_checking",
+         "exhaustive enumeration of (project, hash seed) pairs on the real executable with owned seed nondeterminism (getrandom shim)",
+         "DESIGN.md §4 C10",
+         "The seeds of every RandomState in the real `mos` process are chosen by the harness (LD_PRELOAD getrandom shim); every project of the enumerated space (statement sequences with repeated undefined names, macros, three import forms, clean/erroneous imported files, listing and VICE symbols) is built under every seed 0..N-1 in a fresh process and directory, and stdout plus every output file must be byte-identical over all seeds. A canary shows how many HashSet orders the N seeds produce; a labelled sampled run without the shim is a tripwire only.",
+         "Exhaustive over (project, seed < N), N = 8 quick / 32 thorough; the seed space itself is not enumerable. The shim owns libc getrandom/getentropy."),
 }
 
 NOT_YET = {
